@@ -428,7 +428,50 @@ def cxx_case(chk, i):
     return out
 
 
+SMALL_OPAQUE = """template <class A, class B> struct pair { A first; B second; };
+template <class A> struct box { A v; };
+template <class A> struct trio { A a[3]; };
+struct ShortPair { char lead; pair<short, short> p; char tail; };
+struct CharPair { char lead; pair<char, char> p; char tail; short s; };
+struct Boxes { char lead; box<char> b[4]; char mid; box<short> s[2]; int after; };
+struct Trio { char lead; trio<char> t; char mid; trio<short> u; long l; };
+struct Holder { ShortPair a; CharPair b; Boxes c; Trio d; pair<char, short> e; char z; };
+typedef pair<char, char> cc_t; typedef box<short> bs_t;
+struct ViaTypedef { char lead; cc_t a; char m; bs_t b; char t; };
+"""
+
+
+def small_opaque_case(chk, k):
+    """inline opaque blobs of small sizes whose alignment is below their size (pair<char,char>, box<char>[4], ...): containers keep C's layout"""
+    flags = [["--opaque-type", "pair.*"], ["--opaque-type", "pair.*", "--opaque-type", "box.*", "--opaque-type", "trio.*"],
+             ["--opaque-type", "box.*", "--with-derive-default", "--with-derive-hash", "--with-derive-partialeq"], ["--opaque-type", "cc_t", "--opaque-type", "bs_t"],
+             ["--opaque-type", ".*_t", "--opaque-type", "trio.*", "--rust-target", "1.70"]][k]
+    d = chk.dir("small%d" % k)
+    hdr = write(os.path.join(d, "s.hpp"), SMALL_OPAQUE)
+    name = "small-opaque-%d" % k
+    b = os.path.join(d, "b.rs")
+    rc, so, se, _ = sh([build.BINDGEN, hdr] + flags + ["-o", b, "--", "-x", "c++", "-std=c++14"], timeout=120, cpu=100)
+    if rc != 0:
+        return Verdict(INCONCLUSIVE, name, "bindgen failed: " + se[-300:])
+    old = "--rust-target" in flags
+    rcr, sor, ser, _ = sh(["rustc", "--edition", "2021", "-A", "warnings", "-o", os.path.join(d, "m"), b] + (["--test"] if old else ["--crate-type", "lib", "--emit=metadata"]), timeout=180)
+    files = {"header.hpp": SMALL_OPAQUE, "flags.txt": " ".join(flags), "bindings.rs": open(b).read(), "rustc.txt": ser[-3000:]}
+    f1 = failing_assertions(ser)
+    nassert = len(re.findall(r'\["(?:Size|Alignment) of [^"]+"\]|\["Offset of field: [^"]+"\]|assert_eq ?!', files["bindings.rs"]))
+    obs = {"small_opaque_cases": 1, "small_opaque_assertions": nassert}
+    if f1:
+        return Verdict(VIOLATED, name, "layout assertions fail with %s: %s" % (flags, sorted(f1)[:8]), files=files, obs=obs)
+    if rcr != 0:
+        return Verdict(HELD, name, obs=dict(obs, cxx_selections_with_unrelated_compile_errors=1))
+    if old:
+        rct, sot, set_, _ = sh([os.path.join(d, "m")], timeout=120)
+        if rct != 0:
+            return Verdict(VIOLATED, name, "generated layout #[test] functions fail with %s: %s" % (flags, (sot + set_)[-500:]), files=files, obs=obs)
+    return Verdict(HELD, name, obs=obs, nontrivial=nassert >= 6, key=name)
+
+
 def run(chk):
+    chk.map(lambda k: small_opaque_case(chk, k), range(5))
     chk.map(lambda i: case(chk, i), range(chk.pick(40, 400)), budget_s=chk.pick(500, 3000))
     chk.map(lambda i: vouch_case(chk, i), range(chk.pick(40, 300)), budget_s=chk.pick(200, 900))
     chk.map(lambda i: cxx_case(chk, i), range(chk.pick(60, 500)), budget_s=chk.pick(200, 900))
